@@ -148,6 +148,17 @@ Theorem C08_multidomain_key : forall l1 l2, NoDup (map fst l1) ->
   (sort_items l1 = sort_items l2 <-> Permutation l1 l2).
 Proof. exact sort_items_canonical. Qed.
 
+(* PowerSpace._powerIndexCache: for every pure binning computation f, every key type with decidable
+   equality, every cache whose entries were produced by f, and every sequence of queries (repeated,
+   interleaved, through different but equal domain objects) the answers are exactly f of the keys. *)
+Theorem C08_power_cache_transparent :
+  forall (K V : Type) (f : K -> V) (keqb : K -> K -> bool),
+    (forall a b, keqb a b = true <-> a = b) ->
+    forall (ks : list K) (t : list (K * V)),
+      (forall k v, In (k, v) t -> v = f k) ->
+      mrun K V f keqb ks t = map f ks.
+Proof. exact mrun_transparent. Qed.
+
 (* ---- sphere (partial: ducc0 geometry is an oracle) ---------------------------------------------- *)
 (* HEALPix: size * scalar_dvol = 4 pi for every value of the symbol pi and every nside >= 1 *)
 Theorem C08_sphere_volumes_partial : forall pi nside, 1 <= nside ->
